@@ -2,6 +2,7 @@ import asyncio
 
 import operator
 from collections import OrderedDict
+from numbers import Integral
 import numpy as np
 import pandas as pd
 import toolz
@@ -442,7 +443,9 @@ class Rolling(object):
 
     def __init__(self, sdf, window, min_periods, with_state, start):
         self.root = sdf
-        if not isinstance(window, int):
+        if isinstance(window, Integral):
+            window = int(window)  # also a numpy integer: a number of rows
+        else:
             window = pd.Timedelta(window)
             min_periods = 1
         self.window = window
